@@ -98,7 +98,8 @@ def _explore(tier: str, v: core.Verdict, out: dict):
         d = core.scratch("c06cfg")
         big = tier == "thorough"
         c1 = _cfg_with("Transform.cfg", {"Funcs = {f}": "Funcs = {f, g}"} if big else {}, d)
-        c2 = _cfg_with("TransformValues.cfg", {"MaxObjs = 3": "MaxObjs = 4", "Labels = {n1, n2}": "Labels = {n1}"} if big else {}, d)
+        # quick: one label (== compares everything the digest sees); thorough: two labels (== ignores part of the digest)
+        c2 = _cfg_with("TransformValues.cfg", {} if big else {"Labels = {n1, n2}": "Labels = {n1}"}, d)
         r1 = core.run_tlc(SPEC / "Transform.tla", c1, workers=4, timeout=1500, heap="3g")
         core.require_ok(r1, "Transform.cfg")
         if r1.violated:
@@ -109,7 +110,7 @@ def _explore(tier: str, v: core.Verdict, out: dict):
         if r2.violated:
             raise core.MachineryError(f"TransformValues.cfg: design-level {r2.violated} violated\n" + "\n".join(r2.trace[-2:]))
         core.require_actions(r2, ["Load", "DoCopy", "DoObserve"], "TransformValues.cfg")
-        expect = {"mutate": {"Frame"}, "idhash": {"EqImpliesHash"}, "novalidate": {"ResultsWellFormed"},
+        expect = {"mutate": {"Frame"}, "idhash": {"EqImpliesHash"}, "stalehash": {"EqImpliesHash"}, "novalidate": {"ResultsWellFormed"},
                   "badcopy": {"CopyEqual"}, "eqstate": {"EqReflexive", "EqSymmetric", "EqTransitive"}}
         controls = {}
         for fault, invs in expect.items():
@@ -215,8 +216,8 @@ def _observe_result(S: M.Session, m, m2, r, r2, components=True):
             if r.statements.ode_system is not None and r2.statements.ode_system is not None:
                 t1 = r.replace(statements=r.statements.before_odes)
                 t2 = r2.replace(statements=r2.statements.before_odes)
-                S.load(t1, "replace(statements=before_odes)")
-                S.load(t2, "replace(statements=before_odes)")
+                S.load(t1, "replace(statements=before_odes)", wf=[])  # helper objects: well-formedness not evaluated
+                S.load(t2, "replace(statements=before_odes)", wf=[])
                 S.observe(t1, t2, "result~rebuilt without ODE system")
                 S.observe(t2, t1, "rebuilt~result without ODE system")
                 if components:
@@ -244,6 +245,19 @@ def _observe_result(S: M.Session, m, m2, r, r2, components=True):
                 S.observe(oy, ox, "ode_system")
 
 
+def _never_hashed(x):
+    """An equal copy of x on which hash() has never been evaluated (the cached models of a worker have been hashed by
+    earlier sessions): what a client holds who derives from a model without ever having put it in a set."""
+    import pickle
+
+    try:
+        c = pickle.loads(pickle.dumps(x))
+    except Exception:
+        return x
+    getattr(c, "__dict__", {}).pop("_hash", None)
+    return c
+
+
 def sweep_task(task):
     key, fname, vi = task
     import pharmpy.modeling as pm
@@ -264,6 +278,8 @@ def sweep_task(task):
         kw = M.arg_variants(fname, II, tmp)[vi]
         return (mm,), dict(kw), M.describe_kwargs(kw)
 
+    # "hash first, then derive" (m) against "derive from an equal model that was never hashed" (m2)
+    m2 = _never_hashed(m2)
     try:
         a1, k1, desc = build(m, I)
         a2, k2, _ = build(m2, I2)
@@ -271,14 +287,15 @@ def sweep_task(task):
         return {"skip": f"arguments for {fname}: {type(e).__name__}: {e}"[:200]}
     S.meta["kwargs"] = desc
     S.load(m, "base")
-    S.load(m2, "base2")
-    S.observe(m, m2, "base~base2")
-    S.observe(m2, m, "base2~base")
+    S.observe(m, m, "base hashed before the call")
+    S.load(m2, "base2 (never hashed)")
     to = CALL_TIMEOUT[_TIER]
     out, r = S.call(fname, fn, a1, k1, timeout=to, describe=desc, on=[m])
     out2, r2 = S.call(fname, fn, a2, k2, timeout=to, describe=desc, on=[m2])
     if out == "returned" and isinstance(r, Model) and r is not m:
         _observe_result(S, m, m2, r, r2 if out2 == "returned" else None)
+    S.observe(m, m2, "base~base2")
+    S.observe(m2, m, "base2~base")
     S.meta["out"] = out
     return _finish(S, [key])
 
@@ -293,8 +310,10 @@ def plan_task(task):
     except Exception as e:
         return {"skip": f"base {key}: {type(e).__name__}"}
     S = M.Session({"kind": "plan", "base": key, "plan": [[c["f"], c["arg"]] for c in plan], "function": "+".join(c["f"] for c in plan)})
+    m2 = _never_hashed(m2) if rebuild else m2
     S.load(m, "base")
-    S.load(m2, "base2")
+    S.observe(m, m, "base hashed before the calls")
+    S.load(m2, "base2 (never hashed)")
     to = CALL_TIMEOUT[_TIER]
 
     def run(root, record):
@@ -425,7 +444,7 @@ def _validate(results, v: core.Verdict, tier: str):
     sessions = [r for r in results if "trace" in r]
     if not sessions:
         raise core.MachineryError("no session recorded")
-    nchunks = 8
+    nchunks = 8 if tier == "thorough" else 4
     chunks = [list(range(i, len(sessions), nchunks)) for i in range(nchunks)]
     chunks = [c for c in chunks if c]
     d = core.scratch("c06tr")
@@ -515,9 +534,11 @@ def _report(v: core.Verdict, s, l, why):
 FOCUS = {
     "syn_date": {"data"},
     "syn_events": {"data", "odes"},
-    "syn_des": {"parameter_variability", "common", "odes", "error", "parameters"},
-    "pheno+zoi": {"parameter_variability", "common", "odes", "error", "parameters"},
+    "syn_des": {"parameter_variability", "common"},
+    "pheno+zoi": {"parameter_variability", "common", "odes"},
+    "syn_cov": {"covariate_effect"},
 }
+ALL_VARIANTS = {"syn_cov"}  # bases on which the quick tier runs every argument variant of the focused functions
 
 
 def _tasks(tier: str, seed: int, plans, long_plans):
@@ -528,11 +549,12 @@ def _tasks(tier: str, seed: int, plans, long_plans):
     synthetic = list(M.SYNTHETIC)
     transformed = sorted(k for k in M.TRANSFORMED if k not in FOCUS)
     rng.shuffle(transformed)
-    tbases = transformed if tier == "thorough" else transformed[:2]
+    tbases = transformed if tier == "thorough" else transformed[:1]
     skipped = dict(M.SKIP)
     tasks = []
     nfun = 0
     dummy = None
+    kinfo: dict = {}
     for fname in pm.__all__:
         if fname in skipped:
             continue
@@ -548,16 +570,21 @@ def _tasks(tier: str, seed: int, plans, long_plans):
             if dummy is None:
                 dummy = M.Info(M.build_base("pheno"))
             nv = len(M.arg_variants(fname, dummy, "/nonexistent"))
-        for key in corpus:
-            for vi in range(nv if tier == "thorough" else min(nv, 2)):
+        for ci, key in enumerate(corpus):
+            for vi in range(nv if tier == "thorough" else min(nv, 2 if ci == 0 else 1)):
                 tasks.append(("sweep", key, fname, vi))
         for key in tbases:
             vs = range(nv) if tier == "thorough" else [rng.randrange(nv)]
             for vi in vs:
                 tasks.append(("sweep", key, fname, vi))
         for key, modules in FOCUS.items():
-            if tier == "thorough":
-                for vi in range(nv):
+            nk = nv
+            if key in ALL_VARIANTS and fname not in M.SPECIAL_VARIANTS:
+                if key not in kinfo:
+                    kinfo[key] = M.Info(M.build_base(key))
+                nk = len(M.arg_variants(fname, kinfo[key], "/nonexistent"))
+            if tier == "thorough" or (module in modules and key in ALL_VARIANTS):
+                for vi in range(nk):
                     tasks.append(("sweep", key, fname, vi))
             elif module in modules:
                 for vi in range(min(nv, 2) if module in ("data", "parameter_variability") else 1):
@@ -565,7 +592,7 @@ def _tasks(tier: str, seed: int, plans, long_plans):
     # plans: singles are covered by the sweep; chains and siblings (length 2), sampled by seed in quick
     two = [p for p in plans if len(p) == 2]
     rng.shuffle(two)
-    nplans = {"quick": 260, "thorough": len(two)}[tier]
+    nplans = {"quick": 100, "thorough": len(two)}[tier]
     allbases = corpus + transformed + list(FOCUS)
     ptasks = []
     for i, p in enumerate(two[:nplans]):
@@ -674,7 +701,7 @@ def main(tier: str, seed: int) -> int:
         samples=[{"meta": s["meta"], "events": [{k: e[k] for k in e if k != "post"} for e in s["trace"]["events"][:6]]} for s in sessions[:3]],
         exhaustive=False,
     )
-    return v.finish(min_traces={"quick": 500, "thorough": 2000}[tier])
+    return v.finish(min_traces={"quick": 400, "thorough": 2000}[tier])
 
 
 def replay(path: str) -> int:
